@@ -741,12 +741,12 @@ func init() {
 		Assumptions: []string{"keys presented are 32 bytes (the property's domain)", "worker address space is capped; an out-of-memory death counts only if it reproduces"},
 		NumCases: func(tier string) int {
 			if tier == "thorough" {
-				return 24000
+				return 72000
 			}
 			return 1600
 		},
 		// the last cases (use after timeout) run in the -race build
-		RaceFrom:     func(tier string) int { return map[string]int{"quick": 1600, "thorough": 24000}[tier] - c10RaceCases },
+		RaceFrom:     func(tier string) int { return map[string]int{"quick": 1600, "thorough": 72000}[tier] - c10RaceCases },
 		Run:          c10Run,
 		CaseTimeoutS: 300,
 		Floor: func(a *core.Agg) []string {
